@@ -67,7 +67,7 @@ def oracle_fdiv(case):
 @st.composite
 def mmd_case(draw):
     return {"ovo": draw(st.booleans()), "p": draw(gens.p_spec(pkinds=gens.STRUCTURED_P)), "x": draw(gens.x_spec(kinds=gens.LOWLEVEL_KINDS)),
-            "a": draw(gens.kernel_spec(forms=("named", "callable", "precomputed", "psd", "indef", "foreign")))}
+            "a": draw(gens.kernel_spec(forms=("named", "callable", "precomputed", "psd", "indef", "foreign", "sk_callable")))}
 
 
 def check_affinity(A, Aref, label):
@@ -95,7 +95,7 @@ def oracle_mmd(case):
 @st.composite
 def wass_case(draw):
     return {"ovo": draw(st.booleans()), "p": draw(gens.p_spec(pkinds=gens.STRUCTURED_P, n_max=8, k_max=4)), "x": draw(gens.x_spec(kinds=gens.LOWLEVEL_KINDS)),
-            "a": draw(gens.metric_spec(forms=("named", "precomputed", "randdist", "foreign")))}
+            "a": draw(gens.metric_spec(forms=("named", "precomputed", "randdist", "foreign", "sk_callable")))}
 
 
 def oracle_wass(case):
